@@ -22,7 +22,9 @@ MaxFec      == 110                \* NumFECPackets accepted by the API (MaxFecPa
 Max(a, b) == IF a > b THEN a ELSE b
 Min(a, b) == IF a < b THEN a ELSE b
 B2(v)     == <<v \div 256, v % 256>>
-Zeros(n)  == [i \in 1 .. n |-> 0]
+\* TLC evaluates [i \in 1 .. n |-> e] lazily (e is re-evaluated at every application); Mat forces a real tuple
+Mat(f, n) == SubSeq(f, 1, n)
+Zeros(n)  == Mat([i \in 1 .. n |-> 0], n)
 RECURSIVE Concat(_)
 Concat(ss) == IF ss = <<>> THEN <<>> ELSE Head(ss) \o Concat(Tail(ss))
 
@@ -39,7 +41,7 @@ TwoByteProfile == 4096            \* 0x1000
 ExtElem(xp, el) == IF xp = OneByteProfile THEN <<el.id * 16 + (Len(el.d) - 1)>> \o el.d
                    ELSE IF xp = TwoByteProfile THEN <<el.id, Len(el.d)>> \o el.d
                    ELSE el.d      \* RFC 3550 generic extension: one opaque block of whole words
-ExtBody(p)  == Concat([i \in 1 .. Len(p.xs) |-> ExtElem(p.xp, p.xs[i])])
+ExtBody(p)  == Concat(Mat([i \in 1 .. Len(p.xs) |-> ExtElem(p.xp, p.xs[i])], Len(p.xs)))
 ExtBlock(p) == IF ~p.x THEN <<>>
                ELSE LET body == ExtBody(p)
                         padn == (4 - (Len(body) % 4)) % 4
@@ -56,7 +58,7 @@ Wire(p) == <<128 + (IF p.p THEN 32 ELSE 0) + (IF p.x THEN 16 ELSE 0) + Len(p.csr
 \* header, timestamp, and every byte after the 12-byte fixed header.
 Field(w) == <<w[1] % 64, w[2]>> \o B2(Len(w) - 12) \o SubSeq(w, 5, 8) \o SubSeq(w, 13, Len(w))
 At(a, i) == IF i <= Len(a) THEN a[i] ELSE 0
-XorZ(a, b) == [i \in 1 .. Max(Len(a), Len(b)) |-> At(a, i) ^^ At(b, i)]      \* zero-extended to the longer
+XorZ(a, b) == LET n == Max(Len(a), Len(b)) IN Mat([i \in 1 .. n |-> At(a, i) ^^ At(b, i)], n)   \* zero-extended to the longer
 RECURSIVE XorSet(_, _)
 XorSet(W, S) == IF S = {} THEN <<>>                                          \* W[i + 1] = wire form of index i
                 ELSE LET i == CHOOSE x \in S : TRUE IN XorZ(Field(W[i + 1]), XorSet(W, S \ {i}))
@@ -73,9 +75,9 @@ MaskLen(S)   == IF S \subseteq 0 .. 14 THEN 2 ELSE IF S \subseteq 0 .. 45 THEN 6
 KPos(S)      == IF MaskLen(S) = 2 THEN 0 ELSE IF MaskLen(S) = 6 THEN 16 ELSE 48
 MaskBits(S)  == {MaskPos(i) : i \in S} \cup {KPos(S)}
 Bit(bits, pos, v) == IF pos \in bits THEN v ELSE 0
-BitsToBytes(bits, nb) == [b \in 1 .. nb |->
+BitsToBytes(bits, nb) == Mat([b \in 1 .. nb |->
     LET o == 8 * (b - 1) IN Bit(bits, o, 128) + Bit(bits, o + 1, 64) + Bit(bits, o + 2, 32) + Bit(bits, o + 3, 16)
-                          + Bit(bits, o + 4, 8) + Bit(bits, o + 5, 4) + Bit(bits, o + 6, 2) + Bit(bits, o + 7, 1)]
+                          + Bit(bits, o + 4, 8) + Bit(bits, o + 5, 4) + Bit(bits, o + 6, 2) + Bit(bits, o + 7, 1)], nb)
 Pow2(e) == CASE e = 0 -> 1 [] e = 1 -> 2 [] e = 2 -> 4 [] e = 3 -> 8 [] e = 4 -> 16 [] e = 5 -> 32 [] e = 6 -> 64 [] e = 7 -> 128
 BytesToBits(bs) == {pos \in 0 .. 8 * Len(bs) - 1 : (bs[(pos \div 8) + 1] \div Pow2(7 - (pos % 8))) % 2 = 1}
 MaskBytes(S)  == BitsToBytes(MaskBits(S), MaskLen(S))
@@ -134,7 +136,7 @@ NumRepairs(cfg, media, n) ==
 \* repair packet must carry (-1: any).  Result: set of <<repair index, clause>> that fail.
 BatchFails(cfg, media, n, reps, first) ==
   LET k    == Len(media)
-      W    == [i \in 1 .. k |-> Wire(media[i])]
+      W    == Mat([i \in 1 .. k |-> Wire(media[i])], k)
       want == NumRepairs(cfg, media, n)
       f0   == IF first >= 0 \/ reps = <<>> THEN first ELSE reps[1].seq
   IN (IF Len(reps) = want THEN {} ELSE {<<0, "repair-count">>})
